@@ -2,8 +2,9 @@
     Only statements here; definitions in Model/ClientID.v, proofs and the
     vocabulary ([immediate_sub], [path_id], [path_plain], [reaches_sni],
     [lookalike]) in Proofs/ClientID.v. *)
-From Coq Require Import List NArith.
+From Coq Require Import List NArith Sorting.Permutation.
 From AGH Require Import Base.Run Base.Bytes Base.Dom Base.PathClean Model.ClientID Proofs.ClientID.
+From AGH Require Import Model.CertNames Proofs.CertNames.
 Import ListNotations.
 
 (** A returned non-empty ClientID: the protocol is DoH, DoT or DoQ; the id is a
@@ -194,3 +195,142 @@ Print Assumptions C16_clean_idempotent.
 Theorem C16_valid_label_spec : forall l, validate_hostname_label l = None <-> valid_label l.
 Proof. exact validate_hostname_label_spec. Qed.
 Print Assumptions C16_valid_label_spec.
+
+(** * The strict server-name check of the TLS handshake (Model/CertNames.v):
+    Server.prepareTLS collects the names of the certificate, and
+    Server.onGetCertificate refuses a Client Hello whose server name
+    anyNameMatches does not find among them.  Vocabulary in Proofs/CertNames.v:
+    [cert_names] (SAN DNS names, else the CommonName), [cert_covers],
+    [wild_covers], [rfc6125_covers], [sorted]. *)
+
+(** matchesDomainWildcard(host, pat): pat is *.<d> and host is <x>.<d>; the dot
+    is part of the suffix ([x] may be empty and may contain dots). *)
+Theorem C16_wildcard_match : forall host pat,
+  matches_domain_wildcard host pat = true <->
+  exists d x, pat = star :: dot :: d /\ host = x ++ dot :: d.
+Proof. exact matches_domain_wildcard_spec. Qed.
+Print Assumptions C16_wildcard_match.
+
+(** slices.BinarySearch, as written, on a sorted slice: membership. *)
+Theorem C16_binary_search_sorted : forall names t,
+  sorted names -> (binary_search names t = true <-> In t names).
+Proof. exact binary_search_sorted. Qed.
+Print Assumptions C16_binary_search_sorted.
+
+(** prepareTLS hands a sorted list with the same elements to the search; any
+    correct sort yields this very list. *)
+Theorem C16_names_sorted : forall c,
+  sorted (collect_names c) /\ (forall n, In n (collect_names c) <-> In n (cert_names c)).
+Proof. exact (fun c => conj (collect_names_sorted c) (fun n => In_collect_names n c)). Qed.
+Print Assumptions C16_names_sorted.
+
+Theorem C16_sort_unique : forall l s, sorted s -> Permutation l s -> s = sort_names l.
+Proof. exact sort_names_unique. Qed.
+Print Assumptions C16_sort_unique.
+
+(** With strict checking on, a handshake server name is accepted iff it is a
+    host name or IP literal AND is equal (byte-wise) to a name of the
+    certificate or is <x>.<d> for a wildcard name *.<d> of the certificate with
+    <x> non-empty.  <x> is NOT restricted to one label. *)
+Theorem C16_strict_cert_names : forall c sni v6,
+  handshake_accepts true c sni v6 = true <->
+  sni_wellformed sni v6 = true /\
+  (In sni (cert_names c) \/
+   exists d x, x <> [] /\ In (star :: dot :: d) (cert_names c) /\ sni = x ++ dot :: d).
+Proof. exact strict_cert_names. Qed.
+Print Assumptions C16_strict_cert_names.
+
+(** The one-label reading of a wildcard name (RFC 6125) is not what the code
+    does: *.example.org admits a.b.example.org. *)
+Theorem C16_strict_cert_wildcard_depth_refuted :
+  exists c sni v6,
+    handshake_accepts true c sni v6 = true /\
+    ~ (In sni (cert_names c) \/
+       exists d x, In (star :: dot :: d) (cert_names c) /\ x <> [] /\ mem dot x = false /\
+                   sni = x ++ dot :: d).
+Proof. exact strict_cert_wildcard_depth_refuted. Qed.
+Print Assumptions C16_strict_cert_wildcard_depth_refuted.
+
+(** ... everything the one-label reading admits is admitted. *)
+Theorem C16_strict_cert_one_label_accepted : forall c sni v6,
+  sni_wellformed sni v6 = true -> rfc6125_covers (cert_names c) sni ->
+  handshake_accepts true c sni v6 = true.
+Proof. exact rfc6125_covers_accepted. Qed.
+Print Assumptions C16_strict_cert_one_label_accepted.
+
+(** Look-alikes: <x><d> without a dot between them (evilexample.org,
+    my-example.org, alice.evilexample.org for *.example.org) is not matched by
+    *.<d>; if the handshake is accepted all the same, another name of the
+    certificate is equal to it or covers it. *)
+Theorem C16_strict_cert_lookalike : forall c d x v6,
+  x <> [] -> last x 0%N <> dot ->
+  matches_domain_wildcard (x ++ d) (star :: dot :: d) = false /\
+  (handshake_accepts true c (x ++ d) v6 = true ->
+   exists n, In n (cert_names c) /\ n <> star :: dot :: d /\
+             (n = x ++ d \/ wild_covers n (x ++ d))).
+Proof. exact strict_cert_lookalike. Qed.
+Print Assumptions C16_strict_cert_lookalike.
+
+Theorem C16_strict_single_wildcard_lookalike : forall d cn x v6,
+  x <> [] -> last x 0%N <> dot ->
+  handshake_accepts true {| c_dns_names := [star :: dot :: d]; c_common_name := cn |} (x ++ d) v6 = false.
+Proof. exact strict_single_wildcard_lookalike. Qed.
+Print Assumptions C16_strict_single_wildcard_lookalike.
+
+(** The bare domain is outside its own wildcard. *)
+Theorem C16_strict_single_wildcard_bare : forall d cn v6,
+  handshake_accepts true {| c_dns_names := [star :: dot :: d]; c_common_name := cn |} d v6 = false.
+Proof. exact strict_single_wildcard_bare. Qed.
+Print Assumptions C16_strict_single_wildcard_bare.
+
+(** Strict off: every server name is accepted.  Strict on: no SNI, or one that
+    is neither a host name nor an IP literal, is refused. *)
+Theorem C16_strict_off_accepts : forall c sni v6, handshake_accepts false c sni v6 = true.
+Proof. exact strict_off_accepts. Qed.
+Print Assumptions C16_strict_off_accepts.
+
+Theorem C16_strict_empty_sni_rejected : forall c v6, handshake_accepts true c [] v6 = false.
+Proof. exact strict_empty_sni_rejected. Qed.
+Print Assumptions C16_strict_empty_sni_rejected.
+
+Theorem C16_strict_malformed_rejected : forall c sni v6,
+  sni_wellformed sni v6 = false -> handshake_accepts true c sni v6 = false.
+Proof. exact strict_malformed_rejected. Qed.
+Print Assumptions C16_strict_malformed_rejected.
+
+(** A certificate without SAN DNS names: the CommonName alone decides; with
+    them it is not looked at; the order of the names is irrelevant. *)
+Theorem C16_strict_no_dns_names : forall c sni v6,
+  c_dns_names c = [] ->
+  (handshake_accepts true c sni v6 = true <->
+   sni_wellformed sni v6 = true /\
+   (sni = c_common_name c \/
+    exists d x, x <> [] /\ c_common_name c = star :: dot :: d /\ sni = x ++ dot :: d)).
+Proof. exact strict_no_dns_names. Qed.
+Print Assumptions C16_strict_no_dns_names.
+
+Theorem C16_strict_cn_ignored : forall c cn' sni v6,
+  c_dns_names c <> [] ->
+  handshake_accepts true c sni v6 =
+  handshake_accepts true {| c_dns_names := c_dns_names c; c_common_name := cn' |} sni v6.
+Proof. exact strict_cn_ignored. Qed.
+Print Assumptions C16_strict_cn_ignored.
+
+Theorem C16_strict_order_irrelevant : forall c1 c2 sni v6,
+  Permutation (c_dns_names c1) (c_dns_names c2) -> c_common_name c1 = c_common_name c2 ->
+  handshake_accepts true c1 sni v6 = handshake_accepts true c2 sni v6.
+Proof. exact strict_order_irrelevant. Qed.
+Print Assumptions C16_strict_order_irrelevant.
+
+(** The two strict checks together: a ClientID read from the server name under
+    strict checking, on a connection whose handshake passed the strict check:
+    the name is <label>.<configured name> AND covered by the certificate. *)
+Theorem C16_strict_both : forall p host sni h c v6 cli id,
+  client_id_of p host true sni h = CidOk id -> id <> [] ->
+  server_name_of p sni h = inr cli ->
+  handshake_accepts true c cli v6 = true ->
+  cert_covers c cli /\
+  ((p = DoH /\ exists r x, h = Some r /\ path_id (d_path r) x /\ valid_label x /\ id = lower x) \/
+   (host <> [] /\ exists x, immediate_sub cli host x /\ valid_label x /\ id = lower x)).
+Proof. exact strict_both. Qed.
+Print Assumptions C16_strict_both.
